@@ -27,7 +27,7 @@ Lemma step_tame s i p : Tame (r_end s) -> Tame (r_end (step requires_met cfg oc 
 Proof.
   intros T. unfold step. destruct (r_end s) eqn:E;
     try (rewrite E; exact T); try (destruct T as [X|[X|X]]; discriminate).
-  destruct (rs_update requires_met (r_rs s) (p_directives p)) as [rs'|e|q] eqn:U.
+  destruct (part_update requires_met (r_rs s) p) as [rs'|e|q] eqn:U.
   - destruct (rs_skips rs' || negb (has_any_code p)); [left; reflexivity|].
     destruct (negb (r_did_import s) && negb (c_import_ok cfg)).
     + simpl. rewrite Hret. right. right. reflexivity.
@@ -43,7 +43,7 @@ Proof.
       * unfold fail_at; simpl; rewrite Hret. unfold Tame; auto.
       * exfalso. exact (Hbase i out O).
   - unfold fail_at; simpl; rewrite Hret. unfold Tame; auto.
-  - exfalso. exact (Htotal _ _ _ U).
+  - exfalso. unfold part_update in U. destruct (p_dirs_raise p); [discriminate | exact (Htotal _ _ _ U)].
 Qed.
 
 Lemma run_parts_tame ps : forall s i, Tame (r_end s) -> Tame (r_end (run_parts requires_met cfg oc s i ps)).
